@@ -57,10 +57,12 @@ VARIABLES pid,     \* index of the program of the batch this behaviour executes
           crossed, \* an exception has crossed an activation boundary (raised by a callee into its caller)
           oc,      \* "outside the class": an exception raised by a call was caught by a handler of the caller, or a finally
                    \* block running during propagation raised an exception of its own
+          finx,    \* a finally block has executed a statement while an exception was propagating (its effects, including an
+                   \* exception of its own in the converted function, are outside the guarantee)
           lists,   \* list objects: address -> sequence of values  (l = [], l.append(e), x = l.pop(), x = l[k], l[k] = e)
           lrd,     \* cells read by the last step only inside the body of a lambda value it called (a subset of rd)
           lnode    \* ... and the statement that created that lambda (0 = the step called no lambda value)
-vars == <<pid, ctrl, envs, cells, heap, log, dec, status, cur, how, rd, wr, steps, inp, xlog, xnode, xfirst, delx, hb, crossed, oc, lrd, lnode, lists>>
+vars == <<pid, ctrl, envs, cells, heap, log, dec, status, cur, how, rd, wr, steps, inp, xlog, xnode, xfirst, delx, hb, crossed, oc, lrd, lnode, lists, finx>>
 
 P        == Progs[pid]
 ND(n)    == P.nodes[n]
@@ -557,6 +559,7 @@ Step ==
                              THEN {c \in wr' : cells'[c][1] = "x"} ELSE {})
      /\ delx' = (delx \/ (how' = "exc" /\ ~resumed /\ cur' # 0 /\ ND(cur').kind = "del"))
      /\ crossed' = cr
+     /\ finx' = (finx \/ (pend /\ cur' # 0))
      /\ oc' = (oc \/ infin \/ (cr /\ how' = "exc" /\ status'[1] = "run" /\ ctrl'[Len(ctrl')].k = "handler"))
 
 Init ==
@@ -575,7 +578,7 @@ Init ==
   /\ ctrl = << Frame("call", FN(1).body, 0, 1) >>
   /\ log = <<>> /\ dec = <<>> /\ status = <<"run", NoneV>> /\ cur = 0 /\ steps = 0 /\ how = ""
   /\ rd = {} /\ wr = {} /\ xlog = 0 /\ xnode = 0 /\ xfirst = 0 /\ delx = FALSE /\ hb = {} /\ crossed = FALSE /\ oc = FALSE
-  /\ lrd = {} /\ lnode = 0 /\ lists = <<>>
+  /\ lrd = {} /\ lnode = 0 /\ lists = <<>> /\ finx = FALSE
 
 Spec == Init /\ [][Step]_vars
 DecBound == Len(dec) <= MaxDec      \* CONSTRAINT: executions consuming more decisions are not explored further
@@ -583,5 +586,5 @@ DecBound == Len(dec) <= MaxDec      \* CONSTRAINT: executions consuming more dec
 Terminal == status[1] # "run"
 (* reporting invariant: one JSON line per complete execution *)
 Out == IF status[1] = "ret" THEN <<"ret", ObsV(status[2])>> ELSE status
-Emit == Terminal => PrintT(ToJson([pid |-> pid, dec |-> dec, inp |-> inp, log |-> log, out |-> Out, xlog |-> xlog, xnode |-> xnode, xfirst |-> xfirst, delx |-> delx, oc |-> oc]))
+Emit == Terminal => PrintT(ToJson([pid |-> pid, dec |-> dec, inp |-> inp, log |-> log, out |-> Out, xlog |-> xlog, xnode |-> xnode, xfirst |-> xfirst, delx |-> delx, oc |-> oc, finx |-> finx]))
 =============================================================================
